@@ -17,7 +17,7 @@ RULE = (
     "that lists a child coming from another parent. Enumerated distinct by construction; histories hashed."
 )
 ASSUMPTIONS = [
-    "in scope: the call raised TreeError/LoopError, TypeError for non-iterable children, or every hook exception that fired came from a _pre_* hook; post-hook faults are out of scope (documented: no rollback)",
+    "in scope: the call raised TreeError/LoopError, TypeError for non-iterable children, any exception for a parent that is not a tree node (LightNodeMixin raises AttributeError there), or every hook exception that fired came from a _pre_* hook; post-hook faults are out of scope (documented: no rollback)",
     "oracle: whole-universe snapshot after the call equals the snapshot before it",
     "a deviation is tolerated only if a step model of the current rollback algorithm predicts exactly the observed exception and post-state AND tags it with one of the four open findings KF-C03-1..4; everything else is a violation",
 ]
@@ -39,6 +39,10 @@ def in_scope(step, family):
     if type(exc) in (TreeError, LoopError):
         return True
     if isinstance(exc, TypeError) and step.op[0] == "children" and isinstance(step.op[2], dict):
+        return True
+    if step.op[0] == "parent" and isinstance(step.op[2], dict):
+        # a parent that is not a tree node is an invalid argument for every class: LightNodeMixin has no type check
+        # of its own and fails with AttributeError - whatever is raised, the forest must be what it was
         return True
     return False
 
@@ -108,8 +112,8 @@ def plan(tier, seed):
 def _no_bad_for_lm(cases, family):
     for case in cases:
         op = case["steps"][0]["op"]
-        if family == "LM" and not mut.op_is_plain(op) and not (op[0] == "children" and isinstance(op[2], dict)):
-            continue  # non-node arguments are only specified for NodeMixin-based classes
+        if family == "LM" and not mut.op_is_plain(op) and not (op[0] == "children" and isinstance(op[2], dict)) and op[0] != "parent":
+            continue  # non-node children are only specified for NodeMixin-based classes
         yield case
 
 
@@ -123,7 +127,11 @@ def run_task(task, acc):
         @st.composite
         def strat(draw):
             spec = draw(st.sampled_from(CLASS_SPECS))
-            return draw(mut.history_strategy(max_nodes=7, max_steps=25, faults="pre", invalid=(mut.family_of(spec) == "NM"), class_specs=[spec], hooks=mut.PRE_HOOKS))
+            case = draw(mut.history_strategy(max_nodes=7, max_steps=25, faults="pre", invalid=True, class_specs=[spec], hooks=mut.PRE_HOOKS))
+            if mut.family_of(spec) == "LM":
+                # non-node children are unspecified for LightNodeMixin classes; non-node parents and non-iterables stay
+                case["steps"] = [s for s in case["steps"] if not (s["op"][0] == "children" and not isinstance(s["op"][2], dict) and not mut.op_is_plain(s["op"]))] or [{"op": ["del", 0], "plan": {}}]
+            return case
 
         acc.run_hypothesis(check_case, strat(), task["examples"], task["seed"])
 
